@@ -7,6 +7,7 @@ props = [json.loads(l) for l in open('/verif/properties.jsonl')]
 plist = '\n'.join(f"  {p['id']}: {p['title']} — {p['statement']}" for p in props)
 AREAS = {
  '5': {},
+ '8': {k: ('any file of the package (bluebell/*.py, bluebell/akn.peg with bluebell/akn.py, bluebell/akn_text.xsl)', 'whatever code the property %s depends on; the change must break property %s specifically (others may break too)' % (k, k)) for k in ['C08', 'C09', 'C10', 'C11', 'C12', 'C16', 'C17', 'C18']},
  '7': {'typesD': ('bluebell/types.py', 'hierarchical elements and their parts: HierElement, headings, nums, subheadings, crossheadings, longtitle, the wrapping of children into intro / content / wrapUp'),
        'typesE': ('bluebell/types.py', 'judgment and debate structures, speech containers / groups / speeches (from, by), and the document root classes'),
        'xmlC': ('bluebell/xml.py', 'XmlGenerator.item_to_xml for inline and marker elements (ref href, img, br inside remarks, sup/sub, abbr/term/def), text merging between inline elements, make_element / attribute handling'),
